@@ -7,6 +7,9 @@ tier="quick"; if [ "${1:-}" = "quick" ] || [ "${1:-}" = "thorough" ]; then tier=
 ids="$*"; [ -z "$ids" ] && ids="C01 C02 C03 C04 C05 C06 C07 C08 C09 C10 C11 C12 C13 C14 C15 C16 C17 C18 C19 C20"
 cd "$(dirname "$0")/.."
 if [ -n "$(git -C /repo status --porcelain --untracked-files=no)" ]; then echo "/repo is not clean"; exit 2; fi
+# a background `vp run` rebuilds from /repo's working tree whenever one of its checks starts: patching /repo now would
+# make that run judge the seeded tree (this happened to thorough run #5). Use tools/matrix.sh (scratch copies) instead.
+if command -v vp >/dev/null 2>&1 && vp runs 2>/dev/null | grep -q " running "; then echo "a vp run is in progress: not touching /repo (use MATRIX_CHECKS=\"IDs\" tools/matrix.sh 1 <name>)"; exit 2; fi
 git -C /repo apply "$patch" || { echo "patch does not apply"; exit 2; }
 trap 'git -C /repo checkout -- . ' EXIT
 fired=""
